@@ -278,3 +278,6 @@ func RunReplay(h func()) (failures []string, panicked interface{}, diverged stri
 	}()
 	return Failures, panicked, diverged
 }
+
+func SetFiles(names []string)                              {}
+func FileSet(name string, words []uint64, cutBytes uint64) {}
